@@ -70,7 +70,7 @@ def plan(pid, tier):
         return {"level": "model_checking", "jobs": jobs, "owns_crashes": False, "rule": RULE_ARENA, "assumptions": ARENA_ASSUME, "bounds": {"depth": 3 if q else 4, "deviations": 1 if q else 2}}
     if pid == "C09":
         jobs = [arena_job("prefix1-x-final-try", "fallible", 9, 2, 2, 45, tier)] if q else [arena_job("prefix2-x-final-try", "fallible", 9, 3, 2, 900, tier), arena_job("prefix1-dbg", "fallible", 9, 2, 2, 200, tier, build="dbg")]
-        return {"level": "fault_enumeration", "jobs": jobs, "owns_crashes": True, "rule": RULE_ARENA + "; faults = Env refusal of the k-th chunk request of the final operation (all k), forced refusal of over-cap / over-aligned requests, allocation limits", "assumptions": ARENA_ASSUME,
+        return {"level": "fault_enumeration", "jobs": jobs, "owns_crashes": True, "rule": RULE_ARENA + "; faults = up to 2 allocator-answer deviations per final operation, each at any request index k: refuse request k, refuse request k and every later one (fail everything), refuse every request above 2^12 bytes from request k on (thorough: 2^9, 2^12, 2^16), grant at valuation 12; forced refusal of over-cap / over-aligned requests, allocation limits", "assumptions": ARENA_ASSUME,
                 "bounds": {"prefix_depth": 1 if q else 2, "deviations": 2}, "build_profiles": ("release",) if q else ("release", "dbg")}
     if pid == "C10":
         jobs = [arena_job("histories-core", "core", 10, 3, 1, 45, tier), arena_job("uniform-exactness", "uniform", 10, 5, 1, 40, tier)] if q else [
